@@ -29,7 +29,7 @@ theorem step_clkOrphan (cfg : Cfg) (s t : St) (f : Bool) (h : Step cfg f s t) (i
   | startCR _ i hi =>
     have l0 := le_tot clkW _ _ _ hi
     (try simp only [St.setDone, St.setBg]) <;> (repeat' split) <;> simp_all [tot_set_eq _ _ _ _ _ hi, tot_ackWs_clk, clkW, b2n_true, b2n_false, bgClk_run, bgClk_idle, bgClk_exited, bgClk_clearW, bphClk, St.bg, onOk, onErr, selNext, afterSetErr] <;> (try omega)
-  | startSR _ i hi =>
+  | startSR _ i hi ha =>
     have l0 := le_tot clkW _ _ _ hi
     (try simp only [St.setDone, St.setBg]) <;> (repeat' split) <;> simp_all [tot_set_eq _ _ _ _ _ hi, tot_ackWs_clk, clkW, b2n_true, b2n_false, bgClk_run, bgClk_idle, bgClk_exited, bgClk_clearW, bphClk, St.bg, onOk, onErr, selNext, afterSetErr] <;> (try omega)
   | startClose _ i hi =>
